@@ -44,12 +44,12 @@ class ModelSkips:
     implementation run) keeps the implementation's answer of the declined cases for `canon_model`."""
     CHUNK = 500
 
-    def declines(self, model_out):
+    def declines(self, a, model_out):
         """Does this model answer mean `no claim`?"""
         raise NotImplementedError
 
-    def model_kind(self, model_out):
-        """Short class of a model answer, for the label."""
+    def model_kind(self, a, model_out):
+        """Short class of the model's answer for case a, for the label."""
         return model_out.split(" ")[0]
 
     def _state(self):
@@ -81,7 +81,7 @@ class ModelSkips:
         if len(outs) != len(chunk):
             raise RuntimeError("driver returned %d lines for %d inputs" % (len(outs), len(chunk)))
         for a, out in zip(chunk, outs):
-            self._kinds[a] = (self.model_kind(out), self.declines(out))
+            self._kinds[a] = (self.model_kind(a, out), self.declines(a, out))
 
     def peek(self, a):
         """(kind, declined) of the model's answer for a; a case that did not come through `peeked` (corpus,
@@ -193,7 +193,7 @@ class Strftime2Op(ModelSkips, Op):
     prop = "C17"
     name = "strftime2"
 
-    def declines(self, model_out):
+    def declines(self, a, model_out):
         return model_out == "err:unmodelled"
 
     def gen(self, rng, tier, boost):
@@ -202,7 +202,7 @@ class Strftime2Op(ModelSkips, Op):
     def _gen(self, rng, tier, boost):
         C = _c17()
         shard = getattr(self, "shard", None)
-        n = (4000 if tier == "quick" else 40000) * boost
+        n = (6000 if tier == "quick" else 60000) * boost
         if shard:
             n = n // shard[1] + 1
         for _ in range(n):
@@ -248,7 +248,7 @@ class Strftime2Op(ModelSkips, Op):
         return None
 
     def canon_model(self, a, out):
-        if self.declines(out):
+        if self.declines(a, out):
             self._state().skipped["unmodelled"] += 1
             return self.answer_of_impl(a)
         return out
@@ -348,20 +348,26 @@ class UnixQOp(Op):
     name = "unixq"
 
     def gen(self, rng, tier, boost):
-        n = (800 if tier == "quick" else 8000) * boost
+        n = (700 if tier == "quick" else 7000) * boost
         shard = getattr(self, "shard", None)
         if shard:
             n = n // shard[1] + 1
+        seen = set()
         for _ in range(n):
             m = gens.mode(rng) if rng.random() < 0.35 else "greg"
             x = gen_x(rng)
             loc = None if rng.random() < 0.4 else rng.choice(LOCS)
-            yield ("from", m, Q.q(x), loc)
+            a = ("from", m, Q.q(x), loc)
+            if a not in seen:
+                seen.add(a)
+                yield a
         for _ in range(n):
             m = gens.mode(rng) if rng.random() < 0.35 else "greg"
             p = enc_point(gen_since_point(rng, m))
-            yield ("since", m, p)
-            yield ("strfs", m, p)
+            if (m, p) not in seen:
+                seen.add((m, p))
+                yield ("since", m, p)
+                yield ("strfs", m, p)
 
     def from_corpus(self, a):
         return tup(a)
